@@ -688,15 +688,9 @@ func c17GitHubScenario(r *rand.Rand, rep *runReport, cw *caseWriter, cid int, k 
 	}
 	sc := c17SrvScenario{Platform: "github", Diff: diff, Path: path, Budget: budget, Reports: reps, Pending: pend}
 	f.next = 100
-	// failures of scenarios in the known-finding class "more review comments than one API page" are recorded as such
+	// (fix 07993f0: the reporter reads every page; long review histories are ordinary scenarios now)
 	longHistory := false
-	ghFail := func(id, what string, c any) {
-		if longHistory {
-			rep.failKnown(id, what+" [the pull request has more review comments than one API page (30): GithubReporter.List only reads the first page]", c, "C17-github-lists-first-page-only")
-			return
-		}
-		rep.fail(id, what, c)
-	}
+	ghFail := rep.fail
 	// a long review history: more than one page (30) of other people's review comments BEFORE anything of pint's
 	longHistory = k == 7 || (k > 8 && r.Intn(4) == 0)
 	if longHistory {
@@ -760,9 +754,7 @@ func c17GitHubScenario(r *rand.Rand, rep *runReport, cw *caseWriter, cid int, k 
 		sc.Rounds = append(sc.Rounds, c17SrvRound{General: len(f.general) - ngen, Posts: len(f.posts), Store: len(f.comments), View: ghRaw(f.comments)})
 	}
 	sc.Store = f.comments
-	if !longHistory { // the model assumes List returns ALL comments; the paginated class is judged by the oracle only (known finding)
-		cw.add(c17ServerCase(cid, false, path, diff, budget, pend, len(reps), "", store0, sc.Rounds))
-	}
+	cw.add(c17ServerCase(cid, false, path, diff, budget, pend, len(reps), "", store0, sc.Rounds))
 	rep.count(fmt.Sprintf("%+v", sc), sc.Rounds[0].Posts > 0)
 	rep.hist("kind=github-server")
 	rep.hist("srv-diff:" + kind)
@@ -834,9 +826,7 @@ func c17GitHubScenario(r *rand.Rand, rep *runReport, cw *caseWriter, cid int, k 
 		sc2.Rounds = append(sc2.Rounds, c17SrvRound{Posts: len(f.posts), Store: len(f.comments), View: ghRaw(f.comments)})
 	}
 	sc2.Store = f.comments
-	if !longHistory {
-		cw.add(c17ServerCase(cid+100000, false, path, diff, budget, pend, len(reps), "", store1, sc2.Rounds))
-	}
+	cw.add(c17ServerCase(cid+100000, false, path, diff, budget, pend, len(reps), "", store1, sc2.Rounds))
 	rep.count(fmt.Sprintf("%+v", sc2), sc2.Rounds[0].Posts > 0)
 	rep.hist("kind=github-server-after-push")
 	for _, p := range pend {
